@@ -16,6 +16,7 @@ import (
 	"sort"
 	"strconv"
 	"strings"
+	"syscall"
 	"testing"
 	"testing/synctest"
 	"time"
@@ -71,9 +72,9 @@ func NewStats() *Stats {
 	return &Stats{Faults: map[string]int{}, Probes: map[string]int{}, Distinct: map[string]int{}, States: map[string]int{}}
 }
 func (s *Stats) Fault(kind string, n int) { s.Faults[kind] += n }
-func (s *Stats) Probe(name string)       { s.Probes[name]++ }
-func (s *Stats) Seen(key string)         { s.Distinct[key]++ }
-func (s *Stats) State(key string)        { s.States[key]++ }
+func (s *Stats) Probe(name string)        { s.Probes[name]++ }
+func (s *Stats) Seen(key string)          { s.Distinct[key]++ }
+func (s *Stats) State(key string)         { s.States[key]++ }
 func (s *Stats) Sample(v interface{}) {
 	if len(s.Samples) < 3 {
 		s.Samples = append(s.Samples, v)
@@ -112,10 +113,18 @@ type Env struct {
 	Deadline time.Time
 }
 
+// realNow reads the machine's clock. Inside a synctest bubble time.Now is the
+// simulated clock, so budgets (which are real time) must not use it.
+func realNow() time.Time {
+	var tv syscall.Timeval
+	syscall.Gettimeofday(&tv)
+	return time.Unix(tv.Sec, tv.Usec*1000)
+}
+
 // Expired reports whether the worker's budget is used up; enumerating checks
 // stop adding cases (what was examined so far still counts).
 func (e *Env) Expired() bool {
-	if e.Deadline.IsZero() || time.Now().Before(e.Deadline) {
+	if e.Deadline.IsZero() || realNow().Before(e.Deadline) {
 		return false
 	}
 	e.Stats.Probes["enumeration_cut_by_budget"]++
@@ -289,6 +298,15 @@ func shortHash(s string) string {
 	return hex.EncodeToString(h[:6])
 }
 
+// shmBase is the directory simulated database directories live in: the
+// invocation's own tmpfs directory when the check script provides one.
+func shmBase() string {
+	if d := os.Getenv("PEGSIM_SHM"); d != "" {
+		return d
+	}
+	return "/dev/shm"
+}
+
 // runOne executes a scenario with a clean scratch area.
 func runOne(c Check, env *Env, sc *Scenario) (v *Violation, err error) {
 	os.RemoveAll(env.Work)
@@ -431,7 +449,7 @@ func Worker(t *testing.T, prop, tier string, baseSeed uint64, worker, workers in
 	}
 	res.Level, res.Rule = c.Level(), c.Rule()
 	start := time.Now()
-	work, err := os.MkdirTemp("/dev/shm", "pegsim-"+prop+"-")
+	work, err := os.MkdirTemp(shmBase(), "pegsim-"+prop+"-")
 	if err != nil {
 		res.Infra = append(res.Infra, err.Error())
 		return res
@@ -541,7 +559,7 @@ func Replay(t *testing.T, path string) (*Violation, *Violation, error) {
 	if !ok {
 		return nil, nil, fmt.Errorf("unknown property %q", sc.Prop)
 	}
-	work, err := os.MkdirTemp("/dev/shm", "pegsim-replay-")
+	work, err := os.MkdirTemp(shmBase(), "pegsim-replay-")
 	if err != nil {
 		return nil, nil, err
 	}
